@@ -184,7 +184,8 @@ theorem detachOne_inv (s : State) (v : View) (b : Block) (rest : List Block) (h 
           rcases hv2 o ce hc with h1 | h1
           · simp only [slotPut]; split <;> simp [h1.1, hw]
           · exact (hT h1.1).elim
-  refine ⟨_, _, rfl, ⟨cinv_empty _, ?_, ?_, hvrest, ?_⟩, rfl, ?_⟩
+  refine ⟨_, _, rfl, ⟨cinv_empty _, ?_, ?_, hvrest, ?_, ⟨[], rest, rfl, rfl, hdb⟩,
+    fun x hx => h.nonzero x (by rw [hch]; exact List.mem_cons_of_mem _ hx)⟩, rfl, ?_⟩
   · show abs emptyCache (putView v1 (writeCache cv.1 s.db)) = utxoRev rest
     rw [abs_empty, hdb]
   · have hid : b.id ∉ rest.map (·.id) := (List.nodup_cons.mp hnd).1
